@@ -53,6 +53,50 @@ func topIDs(v interface{}) []int64 {
 	return nil
 }
 
+// deepIDs returns the identities of everything reachable from v through constructor arguments, fields, decorator wrappers and
+// slices (the top-level object included), a few levels deep.
+func deepIDs(v interface{}, depth int, out map[int64]bool) {
+	if v == nil || depth > 4 {
+		return
+	}
+	rv := reflect.ValueOf(v)
+	if (rv.Kind() == reflect.Ptr || rv.Kind() == reflect.Interface) && rv.IsNil() {
+		return
+	}
+	for _, id := range topIDs(v) {
+		out[id] = true
+	}
+	if w, ok := v.(rec.WViewer); ok {
+		wv := w.RecWrapped()
+		deepIDs(wv.Inner, depth+1, out)
+		for _, a := range wv.Args {
+			deepIDs(a, depth+1, out)
+		}
+		return
+	}
+	if o, ok := v.(rec.Viewer); ok {
+		vw := o.RecView()
+		for _, a := range vw.Core.Args {
+			deepIDs(a, depth+1, out)
+		}
+		deepIDs(vw.F1, depth+1, out)
+		deepIDs(vw.F2, depth+1, out)
+		deepIDs(vw.F3, depth+1, out)
+		// what calls, withers and annotating decorators were given
+		for _, e := range vw.Core.H.Entries() {
+			for _, a := range e.Args {
+				deepIDs(a, depth+1, out)
+			}
+		}
+		return
+	}
+	if s, ok := v.([]interface{}); ok {
+		for _, e := range s {
+			deepIDs(e, depth+1, out)
+		}
+	}
+}
+
 // stressRun executes op.Ops concurrently: goroutine g runs ops[g*reps:(g+1)*reps].
 // Goroutines are released from one barrier in a seeded random order; fixtures are in stress mode.
 func stressRun(r *runner, op Op) *StressRes {
@@ -80,6 +124,7 @@ func stressRun(r *runner, op Op) *StressRes {
 		svc   string
 		ctx   int
 		ids   []int64
+		deep  []int64
 		err   string
 		pan   string
 		okVal bool
@@ -102,6 +147,15 @@ func stressRun(r *runner, op Op) *StressRes {
 				if x.raw != nil && x.Err == "" && x.Panic == "" {
 					ob.ids = topIDs(x.raw)
 					ob.okVal = true
+					if o.Ctx != 0 {
+						m := map[int64]bool{}
+						deepIDs(x.raw, 0, m)
+						for id := range m {
+							if id != 0 {
+								ob.deep = append(ob.deep, id)
+							}
+						}
+					}
 				}
 				all[g] = append(all[g], ob)
 			}
@@ -112,6 +166,7 @@ func stressRun(r *runner, op Op) *StressRes {
 	}
 	wg.Wait()
 	rec.SetJitter(false, 0)
+	reach := map[string]map[int64]bool{} // context label -> everything reachable from what was handed out in that context
 	seen := map[string]map[int64]bool{}
 	seenCtx := map[string]map[string]map[int64]bool{}
 	okOps := map[string]int{}
@@ -144,6 +199,12 @@ func stressRun(r *runner, op Op) *StressRes {
 				for _, id := range ob.ids {
 					seenCtx[ob.key][lbl][id] = true
 				}
+				if reach[lbl] == nil {
+					reach[lbl] = map[int64]bool{}
+				}
+				for _, id := range ob.deep {
+					reach[lbl][id] = true
+				}
 			}
 		}
 	}
@@ -163,6 +224,10 @@ func stressRun(r *runner, op Op) *StressRes {
 		for l, m := range byCtx {
 			res.CtxSerials[k][l] = flat(m)
 		}
+	}
+	res.CtxReach = map[string][]int64{}
+	for l, m := range reach {
+		res.CtxReach[l] = flat(m)
 	}
 	res.OKOps = okOps
 	sort.Strings(res.Errors)
